@@ -253,6 +253,14 @@ def run(rep, tier, seed):
     items += expr_items(1, False, ("mod", "fn")) + [it for it in expr_items(2, True, ("mod",))
                                                     if it[1][1][0][0].startswith(("expr2:list", "expr2:dict", "expr2:set", "expr2:tuple", "expr2:call", "expr2:sub"))]
     pats = psexpr.patterns(2)
+  cpack = []
+  for eid, stmt in psexpr.const_displays():
+    cpack.append((eid + "@mod", stmt))
+    if len(cpack) == PACK:
+      items.append(("exprpack", ("mod", cpack), None))
+      cpack = []
+  if cpack:
+    items.append(("exprpack", ("mod", cpack), None))
   n_expr = sum(len(it[1][1]) for it in items if it[0] == "exprpack")
   for pid, src in pats:
     items.append(("pattern", pid, src))
